@@ -180,7 +180,6 @@ class Relay(Family):
         self.decoy = run(U.Upstream().start())
         self.plain = run(U.PlainGarbage().start())
         self.mute = run(U.Upstream(tls=False).start())  # accepts TCP, never answers the TLS hello
-        self.closed = U.closed_port()
         self._handlers: dict = {}
         self._ready = True
 
@@ -242,9 +241,11 @@ class Relay(Family):
         case("leave", [["hold"]], leave_after=0.03, timeout=0.3)
         # bad upstream configuration: every request is answered 43
         case("fault", [], fault="badUpstreamUrl")
-        for c in out[:n]:
+        cnt = 0
+        for c in self.share(out):  # the whole enumeration, never cut (harness/README "Sharding pitfall")
+            cnt += 1
             yield c
-        for _ in range(max(0, n - len(out))):
+        for _ in range(max(0, n - cnt)):
             r = rng.random()
             if r < 0.62:
                 st = rng.choice([20, 20, 20, 21, 29, 10, 11, 30, 31, 40, 44, 51, 59, 60, 62, rng.randrange(10, 70)])
@@ -301,7 +302,7 @@ class Relay(Family):
         port = self.up.port
         upstream = None
         if fault == "refused":
-            port = self.closed
+            port = U.closed_port()  # bound and released just now, so that nobody else listens there
         elif fault == "tlsFailure":
             port = self.plain.port
         elif fault == "stallConnect":
